@@ -473,7 +473,7 @@ func (g *G) MatchInto(m *of.Match, maxFields int, between func()) *spec.Node {
 // 32-bit NXM header word that the name denotes by the model's table.
 var headerNames = []string{"NXM_NX_REG0", "NXM_NX_REG1", "NXM_NX_REG5", "NXM_NX_REG15", "NXM_OF_ETH_SRC", "NXM_OF_ETH_DST", "NXM_OF_IN_PORT",
 	"NXM_NX_TUN_ID", "NXM_NX_CT_MARK", "NXM_NX_CT_LABEL", "NXM_NX_XXREG0", "NXM_NX_PKT_MARK", "NXM_OF_VLAN_TCI", "NXM_OF_IP_SRC", "NXM_OF_IP_DST",
-	"NXM_NX_TUN_IPV4_DST", "OXM_OF_METADATA", "NXM_NX_CT_ZONE", "NXM_NX_IPV6_SRC", "OXM_OF_IN_PORT"}
+	"NXM_NX_TUN_IPV4_DST", "OXM_OF_METADATA", "NXM_NX_CT_ZONE", "NXM_NX_IPV6_SRC", "OXM_OF_IN_PORT", "NXM_NX_TUN_METADATA0", "NXM_NX_TUN_METADATA7"}
 
 func (g *G) HeaderField(l string) (*of.MatchField, uint32) {
 	name := headerNames[g.Pick(l, len(headerNames))]
